@@ -31,7 +31,7 @@ ASSUMPTIONS = ["interleavings at statement granularity inside the thread-socket 
 SHARDS = {"quick": 4, "thorough": 16}
 MIN_COUNTERS = {"schedules": 1500, "preempted_schedules": 500, "yield_points": 100000}
 MIN_NONTRIVIAL = {"quick": 500, "thorough": 20000}
-WALL_BUDGET = {"quick": 250, "thorough": 2700}
+WALL_BUDGET = {"quick": 150, "thorough": 2700}      # (a graceful stop: what was explored so far is reported; well below the watchdog)
 TIMEOUT = 20.0
 KF_CYCLE = "broadcast-channel:remotes-listed-in-cyclic-order-never-connect"
 
